@@ -475,6 +475,9 @@ private:
     if (options & WNOHANG) return;
     Kid *k = w->kid_of(pid);
     if (!k) return;
+    // the real call returns at once for a stopped child when asked to report
+    // stops too, and for a continued one when asked for that
+    if ((options & WUNTRACED) && hz::proc_state(pid) == 'T') return;
     if (!hz::is_dead(pid)) {
       // a blocking reap of a child that is still running
       int64_t entry = w->now;
